@@ -15,6 +15,7 @@ struct Context {
 	std::vector<uint32_t> cache_flagsets, vm_flagsets_light, vm_flagsets_fast;
 	std::map<std::string, int> request_counts; // creating call + flags -> allocation requests (dry runs)
 	std::vector<ops::Plan> enumeration;        // C15: complete single-fault enumeration
+	bool no_dry_run = false;                   // cold worker, first plan: no library call may precede the history (request counts fall back to a default)
 };
 
 void init_context(Context &gc);
